@@ -88,8 +88,10 @@ prop("C07", NEC + "Clauses: a token relocated to a new range relocates its lexic
 
 prop("C08", NEC + "Clauses: no content change is discarded, batched changes are converted against the advanced "
      "temporary text and applied to it, LSP columns advance by UTF-16 code units; lengths of different units are not mixed; "
-     "client positions are interpreted only by get_insertion_index and positions sent out come only from as_position (POS-CONV).",
-     [{"rule": "TEXT-SYNC", "floor": 12}, {"rule": "LEN-UNITS", "floor": 3}, {"rule": "POS-CONV", "floor": 22}])
+     "client positions are interpreted only by get_insertion_index and positions sent out come only from as_position (POS-CONV); "
+     "the scan for a client position has an exit that depends on the line alone (a column behind the end of a line is clamped to it); "
+     "no byte distance is computed from terminator-stripped lines.",
+     [{"rule": "TEXT-SYNC", "floor": 13}, {"rule": "LEN-UNITS", "floor": 3}, {"rule": "POS-CONV", "floor": 22}])
 
 prop("C09", NEC + "Clauses: operators are re-printed as the lexeme they were lexed from (T4); every Format impl prints "
      "every child that holds an identifier, literal or operator and every Error variant (TRAVERSE); every token slice "
@@ -130,10 +132,13 @@ prop("C13", NEC + "Clauses: the finder walkers descend into every statement/expr
 prop("C14", NEC + "Clauses: the call statement is located with node, origin and token slice in one frame on every step of "
      "the descent (FRAME in signature_help.rs) through every statement shape that can contain a call (TRAVERSE); hover "
      "resolves local-then-global (SCOPE-ORDER); signatures read kind, name, ref marker and type (DISPLAY-FIELDS); the hover range "
-     "is the cursor identifier's token range (IDENT-RANGE), converted by as_pos_range (POS-CONV)." + PARSER_REF,
+     "is the cursor identifier's token range (IDENT-RANGE), converted by as_pos_range (POS-CONV); a token counts as lying before the "
+     "cursor iff it starts before it: comparisons of token bounds with the cursor offset use one of the four forms that say so "
+     "(CURSOR-CMP: the commas counted for the active parameter)." + PARSER_REF,
      [{"rule": "FRAME", "filter": files("signature_help.rs"), "floor": 8},
       {"rule": "TRAVERSE", "filter": tag("calls"), "floor": 18}, {"rule": "SCOPE-ORDER", "floor": 18},
       {"rule": "DISPLAY-FIELDS", "floor": 4}, {"rule": "IDENT-RANGE", "floor": 4}, {"rule": "POS-CONV", "floor": 22},
+      {"rule": "CURSOR-CMP", "floor": 1},
       {"rule": "FRAME", "filter": files("parser.rs", "utility.rs"), "floor": 3}])
 
 prop("C15", NEC + "Clauses: legend order = enum discriminants (T6); token positions of different units/frames are not "
